@@ -4,7 +4,8 @@
 From Coq Require Import List ZArith Bool Lia.
 Import ListNotations.
 From Goat Require Import Model.Client Proofs.ClientBase Proofs.ProtocolClient Proofs.ClientCancel.
-From Goat Require Model.Server Proofs.ServerCancel.
+From Goat Require Model.Server.
+From Goat Require Import Proofs.ServerCancel.
 Open Scope Z_scope.
 
 (* ---- the caller ---- *)
